@@ -30,6 +30,8 @@ def cases(draw, tier):
     d = D(draw)
     if d.p(3):
         return gen.narrow_chain_case(d)
+    if d.p(2):
+        return gen.many_candidates_case(d)      # candidate ids beyond 256
     case = draw(gen.election_cases(tier=tier, rules=model.GREGORY, chains=True, min_cand=3))
     # multipliers > 1 are always present: the weight must be truncated before it is multiplied
     if all(m == 1 for m, _ in case['ballots']):
